@@ -36,6 +36,8 @@ use vcore::{fnv_str, Ctx, Local};
 use vref::zone::{self as rz, Name, NoDataKind, NodeStatus, Resolution, Rr, Step, Zone};
 use vzone::{Kind, RecSpec, Signing, ZoneSpec};
 
+mod ctor;
+
 const QTYPES: [u16; 9] = [rz::T_A, rz::T_AAAA, rz::T_MX, rz::T_NS, rz::T_CNAME, rz::T_SOA, rz::T_DS, rz::T_TXT, rz::T_ANY];
 
 fn is_dnssec_type(t: u16) -> bool {
@@ -1065,6 +1067,12 @@ fn main() {
         let qtype = case["qtype"].as_u64().unwrap_or(1) as u16;
         let rt = vsim::rt();
         ctx.with_local(|l| {
+            if case["level"].as_str() == Some("ctor") {
+                if !ctor::replay(&case, &rt, l) {
+                    vcore::machinery_exit("bad construction-path case in replay");
+                }
+                return;
+            }
             if case["level"].as_str() == Some("front") {
                 run_front_diff(&spec, &[qname.clone()], &[Signing::Unsigned, Signing::Nsec, signing.clone()], &rt, l);
                 return;
@@ -1249,6 +1257,38 @@ fn main() {
         },
     );
 
+    // construction paths (both tiers, small): 8 zones x {unsigned, NSEC, NSEC3 (3, abcd, opt-out)} x
+    // {InMemoryZoneHandler::new, FileZoneHandler::try_from_config, SqliteZoneHandler::try_from_config first start,
+    // second start (journal exists)} x 3 knob sets (all non-default / all default / adjacent knobs at different values)
+    {
+        let zones = ctor::zones();
+        let sigs = ctor::signings();
+        let knobs = ctor::knob_sets();
+        let mut cases = vec![];
+        for (zi, z) in zones.iter().enumerate() {
+            for s in &sigs {
+                for p in vzone::ctor::CtorPath::ALL {
+                    for (ki, k) in knobs.iter().enumerate() {
+                        // all-non-default on every zone; the other two knob sets on two zones (thorough: on all)
+                        if ki == 0 || thorough || zi == 1 || zi == 6 {
+                            cases.push((z, s, p, k));
+                        }
+                    }
+                }
+            }
+        }
+        ctx.set("construction_path_cases", json!(cases.len()));
+        ctx.par_run_init(
+            cases.len() as u64,
+            1,
+            |w| (vsim::rt(), ctor::scratch(&w.to_string())),
+            |i, l, (rt, dir)| {
+                let (z, s, p, k) = cases[i as usize];
+                ctor::run(z, s, p, k, dir, rt, l);
+            },
+        );
+    }
+
     // vacuity: every important reference class and both DNSSEC outcome classes must have occurred
     for class in [
         "ref:DATA",
@@ -1266,6 +1306,16 @@ fn main() {
         "zones:signed:upper-case",
         "front:sqlite:identical",
         "obs:do=0-on-signed-zone:no-dnssec-records",
+        "ctor:built:inmemory-new:nsec3",
+        "ctor:built:file-try_from_config:nsec3",
+        "ctor:built:sqlite-try_from_config-first-start:nsec3",
+        "ctor:built:sqlite-try_from_config-second-start:nsec3",
+        "ctor:built:sqlite-try_from_config-second-start:unsigned",
+        "ctor:answer:identical",
+        "ctor:zone-content:identical",
+        "ctor:getter:as-configured",
+        "ctor:rrsig-fields:as-configured",
+        "ctor:nsec3-parameters:as-configured",
         "shape:ent-first-descendant-2-below",
         "shape:ent-above-ent",
         "shape:wildcard-below-ent-chain",
